@@ -9,6 +9,8 @@ from . import conv, engine, pipeline, tlc, vocab
 from .engine import Report
 from .tlc import SPEC, VERIF
 
+REPO = os.environ.get('PANE_VERIF_REPO', '/repo')
+
 REGISTRY: dict = {}
 UNION_CFGS = {'quick': 'MC_Grammar_union_q.cfg', 'thorough': 'MC_Grammar_union_t.cfg'}
 TAGGED_CFGS = {'quick': 'MC_Grammar_tagged_q.cfg', 'thorough': 'MC_Grammar_tagged_t.cfg'}
@@ -249,9 +251,9 @@ def _repo_tests_stage(owned: set):
         import subprocess
         import sys
         out = os.path.join(tlc.workdir('recorder'), 'events.json')
-        env = dict(os.environ, PYTHONPATH=VERIF + os.pathsep + '/repo', PANE_VERIF_RECORD=out, PANE_VERIF_TOKPREFIX='r')
+        env = dict(os.environ, PYTHONPATH=VERIF + os.pathsep + REPO, PANE_VERIF_RECORD=out, PANE_VERIF_TOKPREFIX='r')
         p = subprocess.run(['/venv/bin/python', '-m', 'pytest', '-q', '-p', 'no:cacheprovider', '-p', 'harness.recorder',
-                            '--continue-on-collection-errors', 'tests'], cwd='/repo', env=env, capture_output=True, text=True, timeout=900)
+                            '--continue-on-collection-errors', 'tests'], cwd=REPO, env=env, capture_output=True, text=True, timeout=900)
         if not os.path.exists(out):
             raise tlc.MachineryError('the recording plug-in wrote nothing:\n' + p.stdout[-1500:] + p.stderr[-500:])
         with open(out) as f:
